@@ -45,19 +45,26 @@ def replaceGo (old new : Str) : Nat → Str → Str
 def replaceAll (s old new : Str) : Str :=
   if old = [] then s else replaceGo old new s.length s
 
-/-- `(stem, extension without the dot)` when `Path(name).suffix` is non-empty
-    (`i = name.rfind('.')`, `0 < i < len(name) - 1`) -/
-def splitExt (name : Str) : Option (Str × Str) :=
+/-- `Path(p).name` for a relative path without trailing slash: the last component -/
+def pathName (p : Str) : Str := (p.reverse.takeWhile (· != '/')).reverse
+
+def sResults : Str := ['r','e','s','u','l','t','s']
+def sLogs : Str := ['l','o','g','s']
+
+/-- `(stem, extension without the dot)` when `Path(path).suffix` is non-empty
+    (`name = Path(path).name`, `i = name.rfind('.')`, `0 < i < len(name) - 1`) -/
+def splitExt (path : Str) : Option (Str × Str) :=
+  let name := pathName path
   let p := name.reverse.span (· != '.')
   match p.2 with
   | [] => none
   | _ :: rstem => if rstem.isEmpty || p.1.isEmpty then none else some (rstem.reverse, p.1.reverse)
 
 /-- `Path(name).stem` -/
-def pathStem (name : Str) : Str :=
-  match splitExt name with
+def pathStem (path : Str) : Str :=
+  match splitExt path with
   | some (st, _) => st
-  | none => name
+  | none => pathName path
 
 /-- python `s.split('.')` -/
 def splitDot : Str → List Str
@@ -70,7 +77,8 @@ def splitDot : Str → List Str
       | [] => [[c]]
 
 /-- `Path(name).suffixes`, each without its leading dot -/
-def pathSuffixes (name : Str) : List Str :=
+def pathSuffixes (path : Str) : List Str :=
+  let name := pathName path
   if name.getLast? = some '.' then [] else (splitDot (name.dropWhile (· == '.'))).tail
 
 /-- `cogent3.util.io.get_format_suffixes` : (format suffix, compression suffix) -/
@@ -217,6 +225,8 @@ def writeFile (s : Dir D) (sub : Sub) (name : Str) (data : D) : Dir D :=
 
 /-- `_write` after the mode / existence checks -/
 def writeBody (H : D → D) (s : Dir D) (sub : Sub) (n : Names) (data : D) : Dir D × Res :=
+  -- a file name with a directory part: `open` fails, that sub-directory does not exist
+  if n.file.contains '/' then (s, .err .fileNotFound) else
   let s1 := writeFile s sub n.file data
   if sub = .logs then (s1, .done none)
   else ({ s1 with md5 := put s1.md5 n.md5 (H data) }, .done (some n.file))
